@@ -821,3 +821,151 @@ Proof.
       * apply sanitize_id. unfold lcard. rewrite !forall_chars_app, PK. cbn [repeat_char forall_chars].
         rewrite printable_Q by exact PV. reflexivity.
 Qed.
+
+(* ---- the whole header *)
+Definition prelude_ok (p : params) (prelude : list string) : bool :=
+  forallb (fun c => negb (is_end_card c) && match card_value c with None => true | Some _ => reserved p (card_name c) end) prelude.
+
+Lemma harness_prelude_ok : prelude_ok gen_params harness_prelude = true.
+Proof. vm_compute. reflexivity. Qed.
+
+Definition all_accepted (p : params) (s : store) : Prop := forall k v, In (k, v) s -> accepts p k v = true.
+(* same keys in the same order, values equal up to trailing blanks *)
+Definition same_up_to_blanks (s s' : store) : Prop :=
+  Forall2 (fun e e' => fst e' = fst e /\ rstrip (snd e') = rstrip (snd e)) s s'.
+
+Lemma read_prelude : forall p prelude cs, prelude_ok p prelude = true -> read_cards p (prelude ++ cs)%list = read_cards p cs.
+Proof.
+  intros p prelude cs; induction prelude as [|c r IH]; intros H; [reflexivity|].
+  cbn [prelude_ok forallb] in H. apply andb_prop in H as [H1 H2]. apply andb_prop in H1 as [H0 H1].
+  cbn [app read_cards]. unfold is_end_card in H0. apply negb_true_iff in H0. rewrite H0.
+  destruct (card_value c); [rewrite H1|]; now apply IH.
+Qed.
+
+Lemma cards_roundtrip : forall p s, params_sound p = true -> all_accepted p s ->
+  exists cs, write_cards s = Some cs /\ same_up_to_blanks s (read_cards p cs).
+Proof.
+  intros p s PS; induction s as [|[k v] r IH]; intros AA.
+  - exists []. split; [reflexivity | constructor].
+  - destruct IH as (cs & W & Sm); [intros k' v' H; apply AA; now right|].
+    destruct (entry_roundtrip p k v PS (AA k v (or_introl eq_refl))) as (c & j & MK & SA & EC & CN & CV & R).
+    exists (c :: cs). cbn [write_cards]. rewrite MK, W, SA. split; [reflexivity|].
+    cbn [read_cards]. unfold is_end_card in EC. rewrite EC, CV, CN, R.
+    constructor; [|exact Sm]. cbn [fst snd]. split; [reflexivity|].
+    assert (U : p_unquote_read p = true) by (unfold params_sound in PS; split_andb PS; assumption).
+    now rewrite reader_value_Q, rstrip_app_blanks.
+Qed.
+
+Lemma survives_roundtrip : forall p prelude s, params_sound p = true -> prelude_ok p prelude = true -> all_accepted p s ->
+  exists s', roundtrip p prelude s = Some s' /\ same_up_to_blanks s s'.
+Proof.
+  intros p prelude s PS PO AA. destruct (cards_roundtrip p s PS AA) as (cs & W & Sm).
+  exists (read_cards p cs). unfold roundtrip. rewrite W, read_prelude by exact PO. now split.
+Qed.
+
+Lemma same_keys : forall s s', same_up_to_blanks s s' -> map fst s' = map fst s.
+Proof. intros s s' H; induction H as [|e e' r r' [H1 H2] _ IH]; cbn; [reflexivity | now rewrite H1, IH]. Qed.
+
+Lemma same_get : forall s s' k, same_up_to_blanks s s' ->
+  match get k s with
+  | Some v => exists v', get k s' = Some v' /\ rstrip v' = rstrip v
+  | None => get k s' = None
+  end.
+Proof.
+  intros s s' k H; induction H as [|[k1 v1] [k2 v2] r r' [H1 H2] _ IH]; cbn in *; [reflexivity|]. subst k2.
+  destruct (String.eqb k k1); [eauto | exact IH].
+Qed.
+
+(* entries reachable by operations from an accepted store are accepted *)
+Lemma all_accepted_nil : forall p, all_accepted p [].
+Proof. intros p k v []. Qed.
+
+Lemma in_update_first : forall k v s e, In e (update_first k v s) -> In e s \/ e = (k, v).
+Proof.
+  intros k v s e; induction s as [|[k' v'] r IH]; cbn; [tauto|].
+  destruct (String.eqb k k') eqn:E; cbn.
+  - apply String.eqb_eq in E; subst. intros [H|H]; [right; now symmetry | left; now right].
+  - intros [H|H]; [left; now left | destruct (IH H); [left; now right | now right]].
+Qed.
+Lemma in_remove_first : forall k s e, In e (remove_first k s) -> In e s.
+Proof.
+  intros k s e; induction s as [|[k' v'] r IH]; cbn; [tauto|].
+  destruct (String.eqb k k'); cbn; [now right | intros [H|H]; [now left | right; now apply IH]].
+Qed.
+
+Lemma write_key_accepted : forall p k v s, all_accepted p s -> all_accepted p (fst (write_key p k v s)).
+Proof.
+  intros p k v s AA. destruct (accepts p k v) eqn:A; [|now rewrite rejected_write_keeps].
+  intros k2 v2 IN.
+  unfold write_key in IN. pose proof A as A'. unfold accepts in A'.
+  destruct (check_key p k) as [e|vmax]; [discriminate|].
+  apply andb_prop in A' as [A1 A2]. apply negb_true_iff in A1, A2. rewrite A1, A2 in IN.
+  destruct (has_key k s); cbn [fst] in IN.
+  - apply in_update_first in IN as [IN|IN]; [now apply AA | inversion IN; subst; exact A].
+  - apply in_app_iff in IN as [IN|[IN|[]]]; [now apply AA | inversion IN; subst; exact A].
+Qed.
+
+Lemma step_accepted : forall p o s, all_accepted p s -> all_accepted p (fst (step p s o)).
+Proof.
+  intros p o s AA. destruct o as [k v|k z|k|k|k|k|i|]; cbn; try exact AA.
+  - pose proof (write_key_accepted p k v s AA) as H. now destruct (write_key p k v s).
+  - unfold write_int. pose proof (write_key_accepted p k (print_Z z) s AA) as H. now destruct (write_key p k (print_Z z) s).
+  - unfold remove_key. destruct (has_key k s); cbn; [|exact AA]. intros k2 v2 IN. apply AA. now apply in_remove_first in IN.
+Qed.
+
+Lemma run_accepted : forall p ops s, all_accepted p s -> all_accepted p (fst (run p s ops)).
+Proof.
+  intros p ops; induction ops as [|o r IH]; intros s AA; cbn; [exact AA|].
+  pose proof (step_accepted p o s AA) as H. destruct (step p s o) as [s1 x]; cbn in *.
+  specialize (IH s1 H). now destruct (run p s1 r).
+Qed.
+
+(* ================================================================================================ *)
+(* E. the pinned upstream code does not satisfy the property: witnesses on the faithful model *)
+
+(* D8/D9a: a quote is doubled by every round trip *)
+Lemma upstream_quote_doubled :
+  accepts upstream_params "AB" "it's" = true /\
+  roundtrip upstream_params harness_prelude [("AB", "it's")] = Some [("AB", "it''s   ")].
+Proof. split; vm_compute; reflexivity. Qed.
+
+(* D9b: END is accepted, and the END card it produces hides every later entry *)
+Lemma upstream_END_drops_entries :
+  accepts upstream_params "END" "x" = true /\
+  roundtrip upstream_params harness_prelude [("A", "before"); ("END", "x"); ("B", "after")] = Some [("A", "before  ")].
+Proof. split; vm_compute; reflexivity. Qed.
+
+(* D9c: commentary keywords are accepted and lose their value *)
+Lemma upstream_commentary_value_lost :
+  accepts upstream_params "HISTORY" "h" = true /\ accepts upstream_params "CONTINUE" "c" = true /\ accepts upstream_params "" "b" = true /\
+  roundtrip upstream_params harness_prelude [("HISTORY", "h"); ("CONTINUE", "c"); ("", "b")] = Some [("HISTORY", ""); ("CONTINUE", ""); ("", "")].
+Proof. repeat split; vm_compute; reflexivity. Qed.
+
+(* a key of 68 or more characters: the unsigned limit wraps, any value is accepted, serialisation fails *)
+Lemma upstream_long_key_wraps :
+  let k := repeat_char "K"%char 68 in
+  accepts upstream_params k (repeat_char "x"%char 200) = true /\ roundtrip upstream_params harness_prelude [(k, "1.5")] = None.
+Proof. split; vm_compute; reflexivity. Qed.
+
+(* blanks around a long key and a leading "HIERARCH " are stripped: the key comes back under another name *)
+Lemma upstream_long_key_renamed :
+  accepts upstream_params "HIERARCH ABC DEF" "v" = true /\
+  roundtrip upstream_params harness_prelude [("HIERARCH ABC DEF", "v"); (" LEADING SPACE", "w")] = Some [("ABC DEF", "v       "); ("LEADING SPACE", "w       ")].
+Proof. split; vm_compute; reflexivity. Qed.
+
+(* a value whose doubled quotes do not fit is truncated *)
+Lemma upstream_quotes_truncated :
+  let v := repeat_char quote 40 in
+  accepts upstream_params "Q" v = true /\
+  exists v', roundtrip upstream_params harness_prelude [("Q", v)] = Some [("Q", v')] /\ rstrip v' <> rstrip v.
+Proof. split; [vm_compute; reflexivity|]. eexists; split; [vm_compute; reflexivity | vm_compute; discriminate]. Qed.
+
+(* with the parameters of the current tree none of these is accepted any more, and the quote survives *)
+Lemma fixed_rejects_witnesses :
+  accepts gen_params "END" "x" = false /\ accepts gen_params "HISTORY" "h" = false /\ accepts gen_params "CONTINUE" "c" = false /\
+  accepts gen_params "" "b" = false /\ accepts gen_params "PCOUNT" "0" = false /\ accepts gen_params "GCOUNT" "1" = false /\
+  accepts gen_params (repeat_char "K"%char 68) "1.5" = false /\ accepts gen_params (repeat_char "K"%char 67) "" = false /\
+  accepts gen_params "HIERARCH ABC DEF" "v" = false /\ accepts gen_params " LEADING SPACE" "w" = false /\
+  accepts gen_params "Q" (repeat_char quote 40) = false /\
+  roundtrip gen_params harness_prelude [("AB", "it's")] = Some [("AB", "it's   ")].
+Proof. repeat split; vm_compute; reflexivity. Qed.
